@@ -96,6 +96,9 @@ package datastore
 //@   internal alternatives_loaded_once_without_the_transactions_intents [C01 C02 C09]: called(loadIntendedStoreHighestPrio) ==>
 //@            callarg(loadIntendedStoreHighestPrio, 0, 3) == callres(NewPathSet, 0) && callarg(loadIntendedStoreHighestPrio, 0, 2) == callres(NewTreeRoot, 0, 0) &&
 //@            callarg(loadIntendedStoreHighestPrio, 0, 4) == callres(GetIntentNames, 0) && callarg(GetIntentNames, 0, 0) == transaction
+// a run that is neither a dry run nor rejected goes to the device and on to the stores, whatever it changes there: an
+// intent that is shadowed completely still has to be recorded
+//@   internal accepted_run_is_applied [C02 C07]: r1 == nil && !dryRun && called(Validate) && !anyErrors(validationResult) ==> ntrace() > n0
 // all of running goes into the same tree: a leaf the device holds keeps its container from being deleted as a whole
 //@   internal running_is_loaded_in_full [C01 C09]: called(Validate) ==> called(populateTreeWithRunning) &&
 //@            callarg(populateTreeWithRunning, 0, 2) == callres(NewTreeRoot, 0, 0) && callarg(populateTreeWithRunning, 0, 1) == callarg(loadIntendedStoreHighestPrio, 0, 1)
